@@ -68,7 +68,9 @@ def run(model, tier="quick"):
                   opaque=OPQ, aliases=UNI_ALIASES)
     effects_check(res, model, M + "__collect_fee", U.REF_COLLECT_INNER, "collect: each token clamped by ITS OWN pending amount", FX, opaque=OPQ, aliases=UNI_ALIASES)
     formula_check(res, model, M + "get_market_balance", U.REF_UNI_BALANCE,
-                  "market value: fees and deposits mapped to base/quote by orientation, transferred positions skipped", opaque=OPQ, aliases=UNI_ALIASES)
+                  "market value: fees and deposits mapped to base/quote by orientation, transferred positions skipped",
+                  opaque=[x for x in OPQ if x != "get_token_amounts"] + ["get_amounts"],     # get_token_amounts inlined: its zero-liquidity shortcut is visible
+                  aliases=UNI_ALIASES)
     # direction symmetry of the fee path (a mirrored pool sees the opposite tick direction) and of tick trimming
     from . import C08, C06
     from ..rules.formula import nested_func
